@@ -168,7 +168,13 @@ func mkHostileTx2(fx *fixture, r *rand.Rand, typ uint16, toIdx, payIdx int, pays
 		case 2:
 			stx.Signature = []byte{1, 2, 3}
 		default:
-			k, _ := crypto.GenerateKeyFromSeed(r) // unknown, unfunded sender
+			kb := make([]byte, 32) // unknown, unfunded sender (derived from the PRNG directly: ecdsa.GenerateKey reads a random number of bytes)
+			r.Read(kb)
+			kb[0] &= 0x7f
+			k, err := crypto.ToECDSA(kb)
+			if err != nil {
+				k = fx.w.Keys[1]
+			}
 			stx, _ = types.SignTx(tx, k)
 		}
 	}
